@@ -7,7 +7,9 @@ cid = sys.argv[1]; extra = sys.argv[2:]
 rnd = os.environ.get("ROUND", "3")
 d = f"/verif/seeded/{cid}-r{rnd}-neutral"
 src = f"/tmp/seeds/{cid}-out{rnd}"
-if os.path.exists(src + "/neutral.diff"):
+if os.path.exists(d + "/meta.json") and os.path.exists(d + "/patch.diff"):
+    meta = json.load(open(d + "/meta.json"))  # already stored (possibly rebased by hand onto later fixes): never overwritten from the delivery
+elif os.path.exists(src + "/neutral.diff"):
     os.makedirs(d, exist_ok=True)
     shutil.copy(src + "/neutral.diff", d + "/patch.diff")
     meta = json.load(open(src + "/neutral.json")) if os.path.exists(src + "/neutral.json") else {}
@@ -35,6 +37,8 @@ try:
          "suite_passes_with_patch": suite_ok, "checks": res,
          "alarms": sorted(c for c, v in res.items() if v["exit"] != 0 or v["first"].startswith("VIOLATION")),
          "no_verdict": sorted(c for c, v in res.items() if v["first"].startswith("INFRA"))}
+    if meta.get("rebased"):
+        m["rebased"] = meta["rebased"]
     json.dump(m, open(d + "/meta.json", "w"), indent=1)
     print(cid, "neutral: suite_ok", suite_ok, "alarms", m["alarms"], "no_verdict", m["no_verdict"], {c: (v["first"] or v["clause"])[:160] for c, v in res.items() if v["exit"] != 0 or v["first"]})
 finally:
